@@ -344,11 +344,25 @@ def execute(check, case, workdir):
                         break
         return res
 
+    refused = set()
     for stepno, op in enumerate(case['ops']):
         res.steps += 1
         f = op['f']
         rule = FUNCS[f]
         fseed = case['seed'] % 100000 + 17
+        if f in refused:
+            continue
+        if f not in base_cache:
+            # a function that refuses this input outright (e.g. the 'ca' contact scheme on a residue whose CA was removed)
+            # refuses it in the plain single-thread whole-trajectory call too: that is an input matter, not a schedule or
+            # frame-context dependence, and the function is left out of this run
+            try:
+                base(f, fseed)
+            except Exception as e:
+                refused.add(f)
+                res.probe('input_refused:%s:%s' % (f, type(e).__name__))
+                res.log.append('%d %s refuses this input: %s' % (stepno, f, type(e).__name__))
+                continue
         try:
             if op['op'] == 'threads':
                 ref = base(f, fseed)
